@@ -53,5 +53,11 @@ ADLCommonOK(a) == /\ a.asbool = "err" /\ a.asint = "err" /\ a.asfloat = "err" /\
 ADLBytesOK(a) == ADLCommonOK(a) /\ a.asbytes = "ok" /\ a.mapiter = "nil"
 ADLBytesLength(a) == a.len = -1
 ADLMapOK(a) == ADLCommonOK(a) /\ a.asbytes = "err" /\ a.mapiter = "non" /\ a.len >= 0
+\* the key and the value of a yielded pair are nodes in their own right: a string and a link
+ADLScalarOK(a) == /\ ~a.isnull /\ ~a.isabsent /\ a.listiter = "nil" /\ a.mapiter = "nil" /\ a.idx0 = "err" /\ a.lookups = "err"
+                  /\ a.asbool = "err" /\ a.asint = "err" /\ a.asfloat = "err" /\ a.asbytes = "err" /\ a.proto
+ADLKeyOK(a) == ADLScalarOK(a) /\ a.kind = "string" /\ a.asstring = "ok" /\ a.aslink = "err"
+ADLValueOK(a) == ADLScalarOK(a) /\ a.kind = "link" /\ a.aslink = "ok" /\ a.asstring = "err"
+ADLScalarLength(a) == a.len = -1
 
 =============================================================================
